@@ -191,7 +191,8 @@ TQueryFail ==
   /\ Judge({
       <<"C09_reports_failure", Ev.exit # 0>>,
       <<"C09_readable", Ev.trk_ok /\ Ev.hsh_ok>>,
-      <<"C09_query_fail_noop", Ev.pure /\ After(Ev, trk, hsh, fs) = <<TRUE, TRUE, TRUE>> >> })
+      <<"C09_query_fail_noop", Ev.pure /\ After(Ev, trk, hsh, fs) = <<TRUE, TRUE, TRUE>> >>,
+      <<"C08_no_sacct_when_disabled", Backend = "slurm_noacct" => ~Ev.sacct_called>> })
 
 (* touch: the new file system is taken from the observation (gwf uses the real clock; the  *)
 (* driver re-pins the touched files to logical times preserving their observed order) and *)
